@@ -28,6 +28,8 @@ Modelled rather than verified (the theorems do not speak about these):
 * I/O failures are coarse: a record is written whole or not at all (a real `write_all` can stop half way), and
   after a failed write the batch model lets a worker go on (true of `run_batch_without_responses`; the
   persisting runner stops that worker — only "the run is an error" is modelled for it);
+* creating the file is `create_new` then the header on the same handle: in the atomic model one step; the
+  small-step model of section 5c shows the instant in between (a record before the header);
 * every worker finishes (`Complete`, `finished`, `done` are hypotheses: no theorem about termination);
 * an Append run on an existing file that lacks a final newline glues its first record to the last line, and on
   an existing EMPTY file writes no header (the theorems say `first ++ records`; "single header" means "written
@@ -145,6 +147,49 @@ example :
     rowOf anyNum f r = txt "\"5\"\" nails, 2 boxes\"" ∧
     SinkRead.readRow (rowOf anyNum f r) = some [txt "5\" nails, 2 boxes"] := by
   decide
+
+/-- DEFECT, known finding (keys `app/toml-mapping-keys-lowercased`, `app/toml-mapping-columns-merged`): "rows whose
+columns follow the CONFIGURED mapping" fails for a mapping written in the application's TOML file: the `config`
+crate lower-cases the column names, and names that then coincide are merged — `Time`, `time`, `Zeta` arrive as
+the two columns `time` (with the mapping of the second) and `zeta`; no error is raised.  (A mapping given in the
+per-run JSON configuration arrives as configured.) -/
+theorem toml_mapping_columns_merged_counterexample :
+    let configured := [("Time", CsvMapping.path "route.traversal_summary.time"), ("time", .path "request.time"),
+                       ("Zeta", .path "request.origin_vertex")]
+    (tomlMapping configured).map (·.1) = ["time", "zeta"] ∧
+    headerKeys (tomlMapping configured) false = ["zeta", "time"] ∧
+    (headerKeys (tomlMapping configured) false).length < configured.length ∧
+    (match tomlMapping configured with | (_, .path p) :: _ => p == "request.time" | _ => false) = true := by
+  decide
+
+/-- what holds: names that are lower-case already and pairwise different arrive as configured, in order -/
+theorem toml_mapping_keeps_distinct_lowercase_names_partial (configured : List (String × CsvMapping))
+    (hlow : ∀ c ∈ configured, lowerName c.1 = c.1) (hnd : (configured.map (·.1)).Nodup) :
+    tomlMapping configured = configured := by
+  unfold tomlMapping
+  have key : ∀ (rest acc : List (String × CsvMapping)),
+      (∀ c ∈ rest, lowerName c.1 = c.1) → ((acc ++ rest).map (·.1)).Nodup →
+      rest.foldl (fun acc c => insertColumn acc (lowerName c.1) c.2) acc = acc ++ rest := by
+    intro rest
+    induction rest with
+    | nil => intro acc _ _; simp
+    | cons c cs ih =>
+      intro acc hl hn
+      have hc : lowerName c.1 = c.1 := hl c (List.mem_cons_self ..)
+      have hnot : acc.any (fun p => p.1 == c.1) = false := by
+        rw [List.any_eq_false]
+        intro p hp
+        simp only [beq_iff_eq]
+        intro e
+        rw [List.map_append, List.map_cons] at hn
+        have := (List.nodup_append.1 hn).2.2 p.1 (List.mem_map.2 ⟨p, hp, rfl⟩) c.1 (List.mem_cons_self ..)
+        exact this e
+      have hstep : insertColumn acc (lowerName c.1) c.2 = acc ++ [(c.1, c.2)] := by
+        simp only [insertColumn, hc, hnot, Bool.false_eq_true, if_false]
+      rw [List.foldl_cons, hstep,
+        ih (acc ++ [(c.1, c.2)]) (fun x hx => hl x (List.mem_cons_of_mem _ hx)) (by simpa using hn)]
+      simp
+  simpa using key configured [] hlow (by simpa using hnd)
 
 /-! ## 2. A record is intact text: one line (JSON), one RFC 4180 record (CSV) -/
 
@@ -806,6 +851,29 @@ example :
     (exec (cfg oneCall) (SinkFine.init [txt "h\n"] 0 [[a], [b]]) sch).contents = txt "h\n{\"a\":1}\n{\"b\":2}\n" := by
   decide
 
+open SinkFine in
+/-- CREATING THE FILE (after the repair `fix: WriteMode::Append creates a missing output file with create-new
+semantics`): any number of sinks opening one path at the same time and appending, any interleaving of their
+steps — nothing that is in the file is ever removed: the file only grows, piece after piece.  (`create_new` being
+one step — it fails when the file is there — is the OS's, trusted.) -/
+theorem create_new_never_truncates (header : List Char) (st : OpenState) (schedule : List Nat) :
+    ∀ pieces, st.file = some pieces →
+      ∃ extra, (openExec false header st schedule).file = some (pieces ++ extra) :=
+  openExec_new_extends header schedule st
+
+open SinkFine in
+/-- the witness of the repaired defect (`sink/concurrent-build-truncates`): with the old check-then-write, two
+sinks that both saw the path missing both write the header, the second truncating the record the first had
+appended; the repaired code keeps it.  The last line shows what the model of the repaired code still allows: a
+record of the sink that lost the race to create may land before the header (nothing is lost). -/
+theorem check_then_write_truncates_counterexample :
+    let st : OpenState := { file := none, openers := [{ records := [txt "a\n"] }, { records := [txt "b\n"] }] }
+    let sch := [0, 1, 0, 0, 1, 1]
+    (openExec true (txt "h\n") st sch).file = some [txt "h\n", txt "b\n"] ∧
+    (openExec false (txt "h\n") st sch).file = some [txt "h\n", txt "a\n", txt "b\n"] ∧
+    (openExec false (txt "h\n") st [0, 1, 1, 0, 0]).file = some [txt "b\n", txt "h\n", txt "a\n"] := by
+  decide
+
 /-! ## 5d. The whole CSV file, as a reader cuts it -/
 
 /-- a first run on a missing path, any schedule: the reader's record splitter cuts the WHOLE file — header and
@@ -910,6 +978,15 @@ produced it.  Numbers come back as their lexemes (`eraseBits`: the double is a f
 theorem json_record_parses_back (r : Json) (h : numsOk r = true) :
     SinkRead.parse (rowOf anyNum (.json true) r) = some (SinkRead.eraseBits r) := by
   simpa [rowOf, formatResponse] using SinkRead.parse_compact r h
+
+/-- RESTRICTION of "each JSON record parses back" when the reader is `serde_json::from_str` with its default
+recursion limit: the record of a response whose arrays/objects are nested 128 deep or deeper (a query is echoed
+in its response, so the nesting is the caller's) is written — valid JSON, whole — but `from_str` refuses it; up
+to 127 levels it reads back.  (`SinkRead.parse` itself has no limit.) -/
+theorem json_record_readable_by_serde_iff_depth_below_128 (r : Json) (h : numsOk r = true) :
+    SinkRead.parseSerde (rowOf anyNum (.json true) r)
+      = if SinkRead.depth r ≤ SinkRead.serdeDepthLimit then some (SinkRead.eraseBits r) else none := by
+  simpa [rowOf, formatResponse] using SinkRead.parseSerde_compact r h
 
 /-- hence the line determines the response: two responses with the same record are the same response -/
 theorem json_record_determines_response (a b : Json) (ha : numsOk a = true) (hb : numsOk b = true)
